@@ -69,13 +69,47 @@ theorem rawLabels_mem (st : Stored) (wf : WfLabel st) (k p : Nat) (hp : p ∈ ra
 
 
 
+/-- the remapping table of a read, in closed form -/
+def tableOf (st : Stored) (rq : Req) (d interm : DType) : List Int :=
+  remapTable rq.segs rq.combine rq.relabel st.bg (max (st.bg + 1) (listMax st.segNums + 1))
+    (if rq.combine then d else interm)
+
+/-- the translated cell function (T8e) in closed form -/
+theorem remapCell_eq (combine relabel : Bool) (dc ic : Int) (s maxS bg : Nat) (req : Bool) (fi : Nat) :
+    remapCell combine relabel dc ic (s : Int) (maxS : Int) (bg : Int) req (fi : Int) =
+      .ok (((max (bg + 1) (maxS + 1) + 1 : Nat) : Int), (if combine then dc else ic),
+        (if combine && !relabel then
+           (if s < max (bg + 1) (maxS + 1) then (if req then (s : Int) else (bg : Int)) else 0)
+         else (if s < max (bg + 1) (maxS + 1) + 1 then (if req then ((fi + 1 : Nat) : Int) else 0) else 0))) := by
+  unfold remapCell
+  cases combine <;> cases relabel <;> cases req <;> simp <;> (try grind)
+
+/-- the table the model builds from the translated cells is the closed-form table -/
+theorem remapTableT_eq (st : Stored) (rq : Req) (d interm : DType) :
+    remapTableT st rq d interm = .ok (tableOf st rq d interm) := by
+  unfold remapTableT tableOf remapTable
+  simp only [remapCell_eq, bind, Except.bind]
+  have hcode : DType.ofCode (if rq.combine = true then d.code else interm.code) =
+      some (if rq.combine then d else interm) := by
+    cases rq.combine <;> simp [ofCode_code]
+  simp only [hcode, Int.toNat_natCast]
+  apply mapM_ok
+  intro s hs
+  have hs' : s < max (st.bg + 1) (listMax st.segNums + 1) + 1 := List.mem_range.mp hs
+  simp only [pure, Except.pure, Except.ok.injEq]
+  congr 1
+  unfold remapEntry
+  by_cases hcr : (rq.combine && !rq.relabel) = true
+  · simp only [hcr, ↓reduceIte]
+  · simp only [hcr, Bool.false_eq_true, ↓reduceIte, hs']
+
 theorem labelmapFrame_remap (st : Stored) (rq : Req) (d interm : DType) (raw : List Nat)
     (hraw : ∀ v ∈ raw, v ≤ listMax st.segNums) :
-    labelmapFrame st rq d interm true (raw.map Int.ofNat) =
+    labelmapFrame (some (tableOf st rq d interm)) (raw.map Int.ofNat) =
       .ok (raw.map fun v => castVal (if rq.combine then d else interm)
         (remapEntry rq.segs rq.combine rq.relabel st.bg (max (st.bg + 1) (listMax st.segNums + 1)) v)) := by
-  unfold labelmapFrame
-  simp only [↓reduceIte]
+  unfold labelmapFrame tableOf
+  simp only []
   rw [List.mapM_map]
   apply mapM_ok
   intro v hv
@@ -131,7 +165,7 @@ theorem labelmap_frame_combined_remap (st : Stored) (rq : Req) (d interm : DType
     (hc : rq.combine = true)
     (hint : ∀ s ∈ st.segNums, (s : Int) ≤ interm.maxVal)
     (hcap : (if rq.relabel then (rq.segs.length : Int) else (listMax rq.segs : Int)) ≤ d.maxVal) (k : Nat) :
-    labelmapFrame st rq d interm true (labelRow interm st.npix (st.frames.filter (fun f => f.key == k))) =
+    labelmapFrame (some (tableOf st rq d interm)) (labelRow interm st.npix (st.frames.filter (fun f => f.key == k))) =
       .ok ((rawLabels st k).map (outVal rq.segs rq.relabel)) := by
   rw [labelRow_eq, castFrame_id, labelmapFrame_remap st rq d interm _ (rawLabels_le st wf k)]
   · congr 1
@@ -158,10 +192,10 @@ theorem labelmap_frame_combined_remap (st : Stored) (rq : Req) (d interm : DType
 /-- path without remapping (every stored segment requested, combined, not relabelled), one output frame -/
 theorem labelmap_frame_combined_direct (st : Stored) (rq : Req) (d : DType) (wf : WfLabel st)
     (hall : ∀ s ∈ st.segNums, s ∈ rq.segs) (hcap : (listMax rq.segs : Int) ≤ d.maxVal) (k : Nat) :
-    labelmapFrame st rq d d false (labelRow d st.npix (st.frames.filter (fun f => f.key == k))) =
+    labelmapFrame none (labelRow d st.npix (st.frames.filter (fun f => f.key == k))) =
       .ok ((rawLabels st k).map (outVal rq.segs false)) := by
   unfold labelmapFrame
-  simp only [Bool.false_eq_true, ↓reduceIte]
+  simp only []
   rw [labelRow_eq, castFrame_id]
   · congr 1
     apply List.map_congr_left
@@ -209,7 +243,7 @@ theorem labelmapRead_combined (st : Stored) (rq : Req) (d : DType) (wf : WfLabel
   simp only [bind, Except.bind, hc]
   by_cases hr : (!true || rq.relabel || decide ((0 : Int) < (nXor rq.segs st.segNums : Nat))) = true
   · obtain ⟨interm, hi, hfit⟩ := interm_holds st wf
-    simp only [hr, ↓reduceIte, hi]
+    simp only [hr, ↓reduceIte, hi, remapTableT_eq, Functor.map, Except.map, List.mapM_map, Function.comp_def]
     rw [mapM_ok _ (fun k => (rawLabels st k).map (outVal rq.segs rq.relabel)) rq.keys
       (fun k _ => labelmap_frame_combined_remap st rq d interm wf hc hfit hcap k)]
   · have hr' : (!true || rq.relabel || decide ((0 : Int) < (nXor rq.segs st.segNums : Nat))) = false := by
@@ -219,7 +253,7 @@ theorem labelmapRead_combined (st : Stored) (rq : Req) (d : DType) (wf : WfLabel
     have hx : nXor rq.segs st.segNums = 0 := by
       cases h : rq.relabel <;> simp [h] at hr'
       omega
-    simp only [hr', Bool.false_eq_true, ↓reduceIte, ofCode_code]
+    simp only [hr', Bool.false_eq_true, ↓reduceIte, ofCode_code, pure, Except.pure, List.mapM_map, Function.comp_def]
     rw [hrel] at hcap ⊢
     rw [mapM_ok _ (fun k => (rawLabels st k).map (outVal rq.segs false)) rq.keys
       (fun k _ => labelmap_frame_combined_direct st rq d wf (nXor_zero_sub _ _ hx) (by simpa using hcap) k)]
@@ -238,7 +272,7 @@ theorem labelmap_frame_stacked (st : Stored) (rq : Req) (d interm : DType) (wf :
     (hc : rq.combine = false)
     (hint : ∀ s ∈ st.segNums, (s : Int) ≤ interm.maxVal)
     (hlen : (rq.segs.length : Int) ≤ interm.maxVal) (k : Nat) :
-    labelmapFrame st rq d interm true (labelRow interm st.npix (st.frames.filter (fun f => f.key == k))) =
+    labelmapFrame (some (tableOf st rq d interm)) (labelRow interm st.npix (st.frames.filter (fun f => f.key == k))) =
       .ok ((rawLabels st k).map (posVal rq.segs)) := by
   rw [labelRow_eq, castFrame_id, labelmapFrame_remap st rq d interm _ (rawLabels_le st wf k)]
   · congr 1
@@ -307,7 +341,8 @@ theorem labelmapRead_stacked (st : Stored) (rq : Req) (d : DType) (wf : WfLabel 
     omega
   unfold labelmapRead
   rw [labelmapDecision_eq rq.combine rq.relabel d.code _ _ _ st.bitsStored wf.bits hlen1]
-  simp only [bind, Except.bind, hc, Bool.not_false, Bool.true_or, ↓reduceIte, hi, Bool.false_eq_true]
+  simp only [bind, Except.bind, hc, Bool.not_false, Bool.true_or, ↓reduceIte, hi, Bool.false_eq_true,
+    remapTableT_eq, Functor.map, Except.map, List.mapM_map, Function.comp_def]
   rw [mapM_ok _ (fun k => (rawLabels st k).map (posVal rq.segs)) rq.keys
     (fun k _ => labelmap_frame_stacked st rq d interm wf hc hfit hlen' k)]
   simp only []
